@@ -65,6 +65,10 @@ def c01(tier, seed):
     # history only; implementation state the specification does not have shows on other paths)
     for m in ms[:2]:
         simulate(rep, m, clauses_of("C01"), 1500 if tier == "quick" else 20000, 9 if tier == "quick" else 14, seed)
+    # code -> spec: random executions recorded from the real Broker, validated by TLC against BrokerTrace.tla
+    from . import broker_trace
+    broker_trace.validate(rep, "trace-s5f5g1", ["S5", "F5", "G1"], "paid", {"nlv", "pos"},
+                          400 if tier == "quick" else 5000, 25 if tier == "quick" else 40, seed)
     return rep.finish()
 
 
@@ -77,6 +81,9 @@ def c05(tier, seed):
         explore_and_replay(rep, m, clauses_of("C05"))
     for m in ms[:3]:
         simulate(rep, m, clauses_of("C05"), 1500 if tier == "quick" else 20000, 9 if tier == "quick" else 14, seed)
+    from . import broker_trace
+    broker_trace.validate(rep, "trace-s5f5g1", ["S5", "F5", "G1"], "paid", {"mrg"},
+                          400 if tier == "quick" else 5000, 25 if tier == "quick" else 40, seed)
     return rep.finish()
 
 
